@@ -74,7 +74,7 @@ func (f *Mod) Call(s *slip.Scope, args slip.List, depth int) (result slip.Object
 		if (0 < ds && zs < 0) || (ds < 0 && 0 < zs) {
 			_ = z.Add(&z, div)
 		}
-		result = (*slip.Bignum)(&z)
+		result = reduceInteger(&z)
 	case *slip.Ratio:
 		div := (*big.Rat)(d.(*slip.Ratio))
 		if div.Sign() == 0 {
